@@ -1503,6 +1503,141 @@ Proof.
 Qed.
 End Final.
 
+
+(* ---- the wire ends with the record list (or with an incomplete header): exact forms ---- *)
+Lemma short_tail maxc role id sg t : len t < HEADER_LEN ->
+  CF role id sg false 0 0 t = [] /\ EF role id sg 0 0 t = false /\ RA maxc id SSkip 0 0 t = [].
+Proof. intros H. split; [apply CF_short; exact H|]. split; [apply EF_short; exact H|apply RA_short; exact H]. Qed.
+
+Section FinalExact.
+Variable maxc : N.
+
+Theorem C02_delivery_exact rp r sp0 rs t ops u :
+  parser_ok rp -> st rp = Done r -> into_stream_parser rp = inl sp0 ->
+  Forall rcd_ok rs -> len t < HEADER_LEN -> held rp ++ cfed ops ++ u = enc_rcds rs ++ t ->
+  csched_legal maxc sp0 ops ->
+  let role := r_role r in let id := r_id r in
+  let sg := next_input_stream role None in
+  let pf := cfinal maxc sp0 ops in
+  cno_panic maxc sp0 ops /\ sp_inv pf /\
+  cdelivered maxc sp0 ops ++ stream_buffer pf ++ coming pf u = content_rcds role id sg rs /\
+  (raw_bytes pf ++ u = [] \/ stream_at_end pf = true ->
+     cdelivered maxc sp0 ops ++ stream_buffer pf = content_rcds role id sg rs) /\
+  (stream_at_end pf = true -> ended_rcds role id sg rs = true).
+Proof.
+  intros Hok Hst E0 Hrs Ht Hw Hleg role id sg pf.
+  destruct (C02_delivery maxc rp r sp0 rs t ops u Hok Hst E0 Hrs Hw Hleg) as (Np & I & _ & _ & HK & Hall & Hend).
+  fold role id sg pf in HK, Hall, Hend.
+  destruct (short_tail maxc role id sg t Ht) as (Hc & He & _).
+  assert (Hwhole : content_rcds role id sg rs ++ (if content_open role id sg rs then CF role id sg false 0 0 t else [])
+                   = content_rcds role id sg rs).
+  { rewrite Hc. destruct (content_open role id sg rs); apply app_nil_r. }
+  rewrite Hwhole in HK, Hall.
+  split; [exact Np|]. split; [exact I|]. split; [exact HK|]. split; [exact Hall|].
+  intros Hat. destruct (Hend Hat) as [H|[_ H]]; [exact H|]. rewrite He in H. discriminate H.
+Qed.
+
+Theorem C04_stream_rcds_exact rp r sp0 rs t ops u :
+  parser_ok rp -> st rp = Done r -> into_stream_parser rp = inl sp0 ->
+  Forall rcd_ok rs -> len t < HEADER_LEN -> held rp ++ cfed ops ++ u = enc_rcds rs ++ t ->
+  csched_legal maxc sp0 ops ->
+  let pf := cfinal maxc sp0 ops in
+  cemitted maxc sp0 ops ++ output_buffer pf ++ replies_coming maxc pf u = replies_rcds maxc (r_id r) rs /\
+  (raw_bytes pf ++ u = [] -> cemitted maxc sp0 ops ++ output_buffer pf = replies_rcds maxc (r_id r) rs).
+Proof.
+  intros Hok Hst E0 Hrs Ht Hw Hleg pf.
+  destruct (C04_stream_rcds maxc rp r sp0 rs t ops u Hok Hst E0 Hrs Hw Hleg) as (H1 & H2). fold pf in H1, H2.
+  destruct (short_tail maxc 0 (r_id r) None t Ht) as (_ & _ & Hr).
+  assert (Howed : replies_rcds maxc (r_id r) rs ++ (if replies_open maxc (r_id r) rs then RA maxc (r_id r) SSkip 0 0 t else [])
+                  = replies_rcds maxc (r_id r) rs).
+  { rewrite Hr. destruct (replies_open maxc (r_id r) rs); apply app_nil_r. }
+  rewrite Howed in H1, H2. split; assumption.
+Qed.
+End FinalExact.
+
+(* ================================================================================================ *)
+(* The hypotheses are satisfiable: a Filter request (streams Stdin then Data), 9 records, 2 epochs    *)
+(* ================================================================================================ *)
+Definition exf_r : req := mkReq 1 ROLE_Filter 0 [].
+Definition exf_rs : list rcd :=
+  [ mkRcd RT_Stdin 1 [97; 98; 99] [0];                                                     (* Stdin "abc" + 1 pad *)
+    mkRcd RT_GetValues 0 [14; 0; 70; 67; 71; 73; 95; 77; 65; 88; 95; 67; 79; 78; 78; 83] [];  (* FCGI_MAX_CONNS? *)
+    mkRcd RT_Data 1 [120; 121] [];                        (* Data "xy": later stream, ends Stdin, held back *)
+    mkRcd 77 3 [1] [];                                    (* unknown type *)
+    mkRcd RT_BeginRequest 2 (begin_encode 1 0) [];        (* foreign BeginRequest *)
+    mkRcd RT_Stdin 1 [100] [];                            (* stale Stdin: skipped in the Data epoch *)
+    mkRcd RT_Stdin 1 [] [];
+    mkRcd RT_Data 1 [122] [];                             (* Data "z" *)
+    mkRcd RT_Data 1 [] [] ].                              (* end of Data *)
+Definition exf_wire : bytes := enc_rcds exf_rs.
+(* the request parser finished with the first 5 bytes of the stream phase already in its buffer *)
+Definition exf_rp : parser := mkParser 128 (take 5 exf_wire) (Done exf_r).
+Definition exf_sp0 : sp := match into_stream_parser exf_rp with inl p => p | inr _ => new_sparser 0 exf_r end.
+Definition exf_ops1 : list cop :=
+  [ CParse (slice 5 30 exf_wire) None; CConsumeStream 2; CCompress;
+    CParse (slice 30 70 exf_wire) None; CConsumeOutput 7; CConsumeStream 100;
+    CParse (drop 70 exf_wire) (Some 10) ].
+Definition exf_ops2 : list cop := [ CParse [] None; CConsumeStream 1; CParse [] None ].
+
+Example exf_parser_ok : parser_ok exf_rp /\ st exf_rp = Done exf_r /\ into_stream_parser exf_rp = inl exf_sp0.
+Proof.
+  split; [|split; reflexivity].
+  unfold parser_ok. split; [exact I|]. split; [exact I|].
+  split; [apply bytes_okb_ok; vm_compute; reflexivity|].
+  split; [vm_compute; discriminate|]. split; vm_compute; [discriminate|reflexivity].
+Qed.
+
+Example exf_rcds_ok : Forall rcd_ok exf_rs.
+Proof. unfold exf_rs. repeat constructor; try (vm_compute; reflexivity). Qed.
+
+Example exf_legal1 : csched_legal 10 exf_sp0 exf_ops1.
+Proof.
+  vm_compute. repeat split; try discriminate; try (repeat constructor);
+    try (intros H; exfalso; apply H; reflexivity).
+Qed.
+
+Example exf_wire_eq : held exf_rp ++ cfed exf_ops1 ++ [] = enc_rcds exf_rs ++ [].
+Proof. vm_compute. reflexivity. Qed.
+
+Example exf_later : later_stream (abs exf_sp0) RT_Data.
+Proof. vm_compute. reflexivity. Qed.
+
+(* the record-level specification on this wire *)
+Example exf_spec_values :
+  content_rcds ROLE_Filter 1 (Some RT_Stdin) exf_rs = [97; 98; 99] /\
+  ended_rcds ROLE_Filter 1 (Some RT_Stdin) exf_rs = true /\
+  content_rcds ROLE_Filter 1 (Some RT_Data) exf_rs = [120; 121; 122] /\
+  ended_rcds ROLE_Filter 1 (Some RT_Data) exf_rs = true /\
+  len (replies_rcds 10 1 exf_rs) = 64.
+Proof. vm_compute. repeat split; reflexivity. Qed.
+
+(* what the model does on it (first epoch; then set_stream(Data) and the second epoch) *)
+Example exf_run_values :
+  (let '(p, d, e) := crun 10 exf_sp0 exf_ops1 in
+   (d, len e, stream_buffer p, len (output_buffer p), len (raw_bytes p), stream_at_end p))
+  = ([97; 98; 99], 7, [], 25, 69, true) /\
+  match set_stream (cfinal 10 exf_sp0 exf_ops1) (Some RT_Data) with
+  | SetOk p1 => let '(p, d, e) := crun 10 p1 exf_ops2 in
+                (d, stream_buffer p, len (output_buffer p), len (raw_bytes p), stream_at_end p)
+                = ([120], [121; 122], 57, 8, true)
+  | _ => False
+  end.
+Proof. vm_compute. split; reflexivity. Qed.
+
+(* the final theorems apply to it (derived from the theorems, not computed) *)
+Example exf_C02 :
+  cdelivered 10 exf_sp0 exf_ops1 ++ stream_buffer (cfinal 10 exf_sp0 exf_ops1) = [97; 98; 99] /\
+  ended_rcds ROLE_Filter 1 (Some RT_Stdin) exf_rs = true.
+Proof.
+  destruct exf_parser_ok as (Hok & Hst & E0).
+  destruct (C02_delivery_exact 10 exf_rp exf_r exf_sp0 exf_rs [] exf_ops1 [] Hok Hst E0 exf_rcds_ok
+              ltac:(vm_compute; reflexivity) exf_wire_eq exf_legal1) as (_ & _ & _ & Hall & Hend).
+  assert (Hat : stream_at_end (cfinal 10 exf_sp0 exf_ops1) = true) by (vm_compute; reflexivity).
+  split.
+  - rewrite (Hall (or_intror Hat)). vm_compute. reflexivity.
+  - exact (Hend Hat).
+Qed.
+
 Print Assumptions sparse_call.
 Print Assumptions concrete_schedule_law.
 Print Assumptions concrete_schedule.
@@ -1525,3 +1660,5 @@ Print Assumptions C04_stream_rcds.
 Print Assumptions C05_stream.
 Print Assumptions C18_only_active.
 Print Assumptions C18_only_active_rcds.
+Print Assumptions C02_delivery_exact.
+Print Assumptions C04_stream_rcds_exact.
